@@ -193,6 +193,10 @@ totF = z3.Function('totF', A2R, INT, REAL)              # sum_{x,y<n} F(M[x][y])
 totFp = z3.Function('totFp', A2R, INT, REAL)
 totFn = z3.Function('totFn', A2R, INT, REAL)
 dot2 = z3.Function('dot2', A2R, A2R, INT, REAL)         # sum_{x,y<n} D[x][y]*R[x][y]
+dset = z3.Function('dset', A2R, A1B, INT, INT, INT)     # dset(M, P, v, n) = #{u < n : P[u] and M[u][v] != 0}
+rset = z3.Function('rset', A2R, A1B, INT, INT, INT)     # rset(M, P, v, n) = #{u < n : P[u] and M[v][u] != 0}
+wset = z3.Function('wset', A2R, A1B, INT, INT, REAL)    # wset(M, P, v, n) = sum_{u < n, P[u]} M[u][v]
+cntb = z3.Function('cntb', A1B, INT, INT)              # #{q < n : b[q]}
 isperm = z3.Function('isperm', A1I, INT, BOOL)          # p restricted to [0,n) is a bijection of [0,n)
 ixperm = z3.Function('ixperm', A2R, A1I, A2R)           # M[np.ix_(p, p)]
 allclose_sym = z3.Function('allclose_T', A2R, INT, BOOL)   # np.allclose(M, M.T)
@@ -632,10 +636,24 @@ class Engine:
 
     def run_ghost(self, code, st):
         for g in ast.parse(code).body:
+            if isinstance(g, ast.Expr) and isinstance(g.value, ast.Call) and isinstance(g.value.func, ast.Name) and g.value.func.id == 'assume':
+                self.in_spec = getattr(self, 'in_spec', 0) + 1
+                try:
+                    for a in g.value.args:
+                        st.pc.append(truth(self.ev(a, st)))
+                finally:
+                    self.in_spec -= 1
+                continue
             outs = self.stmt(g, st) if not isinstance(g, ast.Assign) else None
             if outs is None:
                 # ghost assignment: target is a ghost name
-                val = self.ev(g.value, st)
+                self.in_spec = getattr(self, 'in_spec', 0) + 1
+                try:
+                    val = self.ev(g.value, st)
+                finally:
+                    self.in_spec -= 1
+                if isinstance(val, (Row, Mat)):
+                    val = self.np.materialise(self, st, val)
                 for t in g.targets:
                     if isinstance(t, ast.Name):
                         st.ghost[t.id] = val
@@ -828,6 +846,9 @@ class Engine:
             v = st.ghost.get(g)
             if is_z3(v):
                 st.ghost[g] = fresh('hv_' + g, v.sort())
+            elif isinstance(v, Ref):
+                o = st.heap[v.oid]
+                st.ghost[g] = alloc(st, o.ndim, fresh('hv_' + g, o.term.sort()), o.shape, o.esort)
 
     def inv_clauses(self, spec, st, extra=None):
         """evaluates the invariant clauses in state st -> list of (name, Bool)."""
@@ -1141,6 +1162,103 @@ def _sb_argref(eng, st, node):
     return eng.entry.env[node.args[0].value]
 
 
+def _sb_lam1(eng, st, node):
+    """lam1(lambda q: expr, n): the 1-D array (length n) whose q-th entry is expr."""
+    lam = node.args[0]
+    nm = lam.args.args[0].arg
+    n = eng.ev(node.args[1], st)
+
+    def fn(q):
+        saved = st.ghost.get(nm)
+        shadow = st.env.pop(nm, None)
+        st.ghost[nm] = q
+        try:
+            return eng.ev(lam.body, st)
+        finally:
+            if saved is None:
+                st.ghost.pop(nm, None)
+            else:
+                st.ghost[nm] = saved
+            if shadow is not None:
+                st.env[nm] = shadow
+    probe = fn(z3.Int('q!probe'))
+    srt = BOOL if (isinstance(probe, bool) or (is_z3(probe) and probe.sort() == BOOL)) else (REAL if (is_z3(probe) and probe.sort() == REAL) or isinstance(probe, float) else INT)
+    return eng.np.materialise(eng, st, Row(n, (lambda q: truth(fn(q))) if srt == BOOL else fn, srt))
+
+
+def _term1b(eng, st, v):
+    if isinstance(v, Ref):
+        return st.heap[v.oid].term
+    if isinstance(v, Row):
+        return st.heap[eng.np.materialise(eng, st, v).oid].term
+    if isinstance(v, Opaque) and v.kind == 'snapshot':
+        return v.obj.term
+    raise ContractError('1-D array expected, got %r' % (v,))
+
+
+def _sb_dset(fn):
+    def sb(eng, st, node):
+        M = _term2(eng, st, eng.ev(node.args[0], st))
+        P = _term1b(eng, st, eng.ev(node.args[1], st))
+        return fn(M, P, to_z3(eng.ev(node.args[2], st), INT), to_z3(eng.ev(node.args[3], st), INT))
+    return sb
+
+
+def _sb_cntb(eng, st, node):
+    return cntb(_term1b(eng, st, eng.ev(node.args[0], st)), to_z3(eng.ev(node.args[1], st), INT))
+
+
+def _masked(C, A, M, n):
+    x, y = z3.Ints('x!l y!l')
+    return z3.ForAll([x, y], z3.Implies(z3.And(x >= 0, x < n, y >= 0, y < n),
+                                        z3.Select(z3.Select(C, x), y) == z3.If(z3.And(z3.Select(A, x), z3.Select(A, y)), z3.Select(z3.Select(M, x), y), 0)))
+
+
+def _sb_lemma_masked_degree(eng, st, node):
+    """LEMMA (code-independent, Lean: masked_degree): if C is M with the rows and columns outside A zeroed then, for every
+    node v, the column count / row count / column sum of C at v is that of M restricted to A if v is in A, and 0 otherwise."""
+    C = _term2(eng, st, eng.ev(node.args[0], st))
+    A = _term1b(eng, st, eng.ev(node.args[1], st))
+    M = _term2(eng, st, eng.ev(node.args[2], st))
+    n = to_z3(eng.ev(node.args[3], st), INT)
+    v = z3.Int('v!l')
+    concl = z3.ForAll([v], z3.Implies(z3.And(v >= 0, v < n), z3.And(
+        ccnt(C, v, n) == z3.If(z3.Select(A, v), dset(M, A, v, n), 0),
+        cnt1(z3.Select(C, v), n) == z3.If(z3.Select(A, v), rset(M, A, v, n), 0),
+        csum(C, v, n) == z3.If(z3.Select(A, v), wset(M, A, v, n), 0))),
+        patterns=[ccnt(C, v, n), cnt1(z3.Select(C, v), n), csum(C, v, n)])
+    return z3.Implies(_masked(C, A, M, n), concl)
+
+
+def _sb_lemma_degree_monotone(eng, st, node):
+    """LEMMA (Lean: restricted_degree_mono): P subset Q => the degree restricted to P is at most the degree restricted to Q
+    (counts; and sums when all weights are non-negative)."""
+    M = _term2(eng, st, eng.ev(node.args[0], st))
+    P = _term1b(eng, st, eng.ev(node.args[1], st))
+    Q = _term1b(eng, st, eng.ev(node.args[2], st))
+    n = to_z3(eng.ev(node.args[3], st), INT)
+    u, v = z3.Ints('u!l v!l')
+    x, y = z3.Ints('x!l y!l')
+    sub = z3.ForAll([u], z3.Implies(z3.And(u >= 0, u < n, z3.Select(P, u)), z3.Select(Q, u)))
+    nonneg = z3.ForAll([x, y], z3.Implies(z3.And(x >= 0, x < n, y >= 0, y < n), z3.Select(z3.Select(M, x), y) >= 0))
+    concl = z3.ForAll([v], z3.Implies(z3.And(v >= 0, v < n), z3.And(dset(M, P, v, n) <= dset(M, Q, v, n), rset(M, P, v, n) <= rset(M, Q, v, n),
+                                                                      z3.Implies(nonneg, wset(M, P, v, n) <= wset(M, Q, v, n)))),
+                      patterns=[dset(M, P, v, n), rset(M, P, v, n), wset(M, P, v, n)])
+    return z3.Implies(sub, concl)
+
+
+def _sb_member(eng, st, node):
+    """member(ff, q): q occurs in the index array ff (for the result of np.where(mask): q in range and mask[q])."""
+    v = eng.ev(node.args[0], st)
+    q = to_z3(eng.ev(node.args[1], st), INT)
+    o = st.heap[v.oid]
+    wc, wn = o.meta.get('where_cond1'), o.meta.get('where_n')
+    if wc is not None:
+        return z3.And(q >= 0, q < to_z3(wn, INT), truth(wc(q)))
+    t = z3.Int('t!mem')
+    return z3.Exists([t], z3.And(t >= 0, t < to_z3(o.shape[0], INT), z3.Select(o.term, t) == q))
+
+
 def _sb_same_object(eng, st, node):
     a, b = eng.ev(node.args[0], st), eng.ev(node.args[1], st)
     return isinstance(a, Ref) and isinstance(b, Ref) and a.oid == b.oid
@@ -1179,5 +1297,6 @@ SPEC_BUILTINS = {
     'totF': _mk_specfn(totF, 1), 'totFp': _mk_specfn(totFp, 1), 'totFn': _mk_specfn(totFn, 1),
     'rpos': _mk_specfn(rpos, 2), 'rneg': _mk_specfn(rneg, 2), 'cpos': _mk_specfn(cpos, 2), 'cneg': _mk_specfn(cneg, 2),
     'dot2': _sb_dot2, 'isperm': _sb_isperm, 'same_object': _sb_same_object, 'unchanged': _sb_unchanged,
-    'snapshot': _sb_snapshot, 'argref': _sb_argref, 'result': _sb_result, 'raised': _sb_raised, 'shape_is': _sb_shape_is,
+    'snapshot': _sb_snapshot, 'argref': _sb_argref, 'lam1': _sb_lam1, 'member': _sb_member, 'dset': _sb_dset(dset), 'rset': _sb_dset(rset), 'wset': _sb_dset(wset), 'cntb': _sb_cntb,
+    'lemma_masked_degree': _sb_lemma_masked_degree, 'lemma_degree_monotone': _sb_lemma_degree_monotone, 'result': _sb_result, 'raised': _sb_raised, 'shape_is': _sb_shape_is,
 }
